@@ -428,7 +428,11 @@ def rule_verdict(ctx, repo):
 
     # run(): verdict -> exit code and return value
     r = F.method(repo, "PFlow", "run", PFLOW)
-    ok = Q.has("$s.exit_code = 0 if self.converged else 1", r.fn)
+    # the exit code depends on the verdict (assigned or added; conditional expression or guarded increment -- C17.exit decides which is right)
+    ok = Q.has("$s.exit_code = 0 if self.converged else 1", r.fn) or Q.has("$s.exit_code += 0 if self.converged else 1", r.fn) or any(
+        isinstance(t, ast.If) and Q.match("not self.converged", t.test) is not None and
+        any(isinstance(x, ast.AugAssign) and (dotted(x.target) or "").endswith("exit_code") for b in t.body for x in ast.walk(b))
+        for t in ast.walk(r.fn))
     rets = r.returns()
     ok2 = all(src(r.g.data(n)["ast"].value) in ("self.converged", "False") for n in rets)
     ctx.check(ok and ok2, "C01.verdict", "PFlow.run/report", "returns self.converged; exit_code mirrors it",
